@@ -532,3 +532,67 @@ func H_C09_Csv(variant int) {
 	}
 	vrt.Reach("end")
 }
+
+type jrow struct {
+	A int
+	B int
+}
+
+// H_C19_JsonStruct: a well-formed array of objects in which an element may omit a
+// key: every delivered record is the decoding of ITS element alone (an omitted key
+// gives the zero value, nothing carries over from the element before).
+func H_C19_JsonStruct(n int) {
+	hasB := make([]bool, n)
+	for i := range hasB {
+		hasB[i] = vrt.Choice("hasb", 2, i) == 1
+	}
+	text := "["
+	for i := range hasB {
+		if i > 0 {
+			text += ","
+		}
+		if hasB[i] {
+			text += "{\"A\":" + string(rune('1'+i)) + ",\"B\":7}"
+		} else {
+			text += "{\"A\":" + string(rune('1'+i)) + "}"
+		}
+	}
+	text += "]"
+	if vrt.Symbolic() {
+		pos, opened := 0, false
+		vrt.Stub("encoding/json.NewDecoder", func(r io.Reader) *json.Decoder { return new(json.Decoder) })
+		vrt.Stub("(*encoding/json.Decoder).Token", func(d *json.Decoder) (json.Token, error) {
+			if !opened {
+				opened = true
+				return json.Delim('['), nil
+			}
+			return json.Delim(']'), nil
+		})
+		vrt.Stub("(*encoding/json.Decoder).More", func(d *json.Decoder) bool { return pos < n })
+		// encoding/json's documented contract: keys present in the element are stored,
+		// fields whose keys are absent are left as they are
+		vrt.Stub("(*encoding/json.Decoder).Decode", func(d *json.Decoder, v any) error {
+			r := v.(*jrow)
+			r.A = pos + 1
+			if hasB[pos] {
+				r.B = 7
+			}
+			pos++
+			return nil
+		})
+	}
+	k := 0
+	for r := range helper.JSONToChanWithLogger[jrow](strings.NewReader(text), slog.Default()) {
+		if k < n {
+			vrt.AssertAt("field_A", k, r.A == k+1)
+			want := 0
+			if hasB[k] {
+				want = 7
+			}
+			vrt.AssertAt("field_B_of_its_own_element", k, r.B == want)
+		}
+		k++
+	}
+	vrt.Assert("all_delivered", k == n)
+	vrt.Reach("end")
+}
